@@ -15,8 +15,14 @@ IMPORTS = IMPORTS + ["SodiumModel.Properties.C01Aegis", "SodiumModel.Properties.
 THEOREMS = THEOREMS + vcore.theorems_in("SodiumModel/Properties/C01AegisAesni.lean", ['aesni_backend_ok', 'mm_aesenc_is_aes_round', 'aesni_load64x2_order', 'aesenc_eq_softaes', 'aegis128l_aesni_encrypt_detached_eq', 'aegis256_aesni_encrypt_detached_eq', 'aegis128l_aesni_decrypt_detached_eq', 'aegis256_aesni_decrypt_detached_eq', 'aegis128l_aesni_decrypt_detached_32', 'aegis256_aesni_decrypt_detached_32', 'aegis128l_aesni_decrypt_detached_rc', 'aegis256_aesni_decrypt_detached_rc', 'aesni_decrypt_detached_failure_output', 'aegis128l_aesni_roundtrip', 'aegis256_aesni_roundtrip', 'crypto_aead_aegis128l_aesni_encrypt_detached_eq', 'crypto_aead_aegis256_aesni_encrypt_detached_eq', 'crypto_aead_aegis128l_aesni_decrypt_detached_eq', 'crypto_aead_aegis256_aesni_decrypt_detached_eq', 'aesni_eq_soft_128L', 'aesni_eq_soft_256', 'aesni_eq_soft', 'aesni_eq_soft_decrypt'], "Sodium.C01AegisAesni")
 
 
+# AES-256-GCM (aead_aes256gcm_aesni.c: key schedule, counter batches, PCLMUL multiplication + reduction, aggregated GHASH, encrypt / decrypt loops, wrappers, limits) = SP 800-38D end to end
+THEOREMS = THEOREMS + vcore.theorems_in("SodiumModel/Properties/C01Gcm.lean", ['expand256_is_fips197', 'expand256_count', 'encrypt_is_cipher', 'encrypt_is_aes256', 'encrypt_xor_block_is_ctr_block', 'encrypt_xor_wide_is_7_blocks', 'counter_init', 'incr_counters_exact', 'counter_step_exact', 'spec_counter_block', 'counter_wrap_deviation', 'counter_wrap_unreachable', 'clmul_reduce_is_gf128_mul', 'clsq_is_square', 'beforenm_table_ok', 'aggregated_is_sequential', 'gh_ad_blocks_is_sequential', 'sequential_is_ghash', 'encrypt_generic_is_ctr_ghash', 'decrypt_generic_is_ctr_ghash', 'ctr_blocks_explicit', 'final_block_is_len_block', 'encrypt_detached_is_gcm', 'encrypt_detached_indep_of_uninit', 'encrypt_is_gcm', 'decrypt_detached_is_gcm', 'decrypt_is_gcm', 'decrypt_short_input', 'encrypt_beyond_limits', 'decrypt_beyond_limits', 'required_blocks_accepts_iff', 'messagebytes_max_refused'], "Sodium.C01Gcm")
+IMPORTS = IMPORTS + ["SodiumModel.Properties.C01Gcm"]
+
+
 def tie_b(ctx):
     vcore.simd_check(ctx, "aegis", "intrinsics_check.c", ["-maes", "-msse2"], "SimdCheck.lean", True)
+    vcore.simd_check_script(ctx, "gcm")
     return []
 
 FINGERPRINTS = "C01"     # Tie B: pinned source text of the transcribed AEGIS / softaes files (tools/fingerprint.py)
@@ -24,8 +30,8 @@ RULE = ("encrypt ops for ChaCha20-Poly1305 (orig, IETF), XChaCha20-Poly1305, AES
         "NaCl zero-padded form and box precomputation: every message length 0..2100 for the IETF AEAD and secretbox, sampled/boundary lengths "
         "for the others, ad lengths 0..70; the harness additionally requires detached = combined, easy = mac||detached and decrypt(encrypt) = m "
         "in both forms for every case; configurations = CPU masks and build variants")
-ASSUMPTIONS = ["block / round / MAC primitives are parameters of the theorems, tied to the specs by correspondence (C03, C04); AES-256-GCM and AEGIS are compared "
-               "against the executable SP 800-38D / AEGIS-draft specification on the AES-NI backends; the portable AEGIS code (generic *_common.h + table-based software AES) is modelled and proved (C01Aegis)"]
+ASSUMPTIONS = ["block / round / MAC primitives are parameters of the theorems, tied to the specs by correspondence (C03, C04); AES-256-GCM and AEGIS are modelled in the C's structure and proved "
+               "equal to the executable SP 800-38D / AEGIS specifications (C01Gcm, C01AegisAesni) over intrinsic semantics validated against the CPU; the portable AEGIS code (generic *_common.h + table-based software AES) is modelled and proved (C01Aegis)"]
 AEADS = [("chachapoly", 32, 8), ("chachapoly_ietf", 32, 12), ("xchachapoly", 32, 24), ("aes256gcm", 32, 12), ("aegis128l", 16, 16), ("aegis256", 32, 32)]
 
 
